@@ -205,6 +205,8 @@ def run(ctx):
         mixed_type_keys(ctx, ctx.rng('mixed', i))
     for i in range(ctx.pick(20, 300)):
         ordered_subquery_case(ctx, i, mon)
+    for i in range(ctx.pick(30, 400)):
+        look_alike_keys_case(ctx, i, mon)
     ledger_part(ctx, mon)
 
 
@@ -241,6 +243,42 @@ def ordered_subquery_case(ctx, n, mon):
             outer.limit = 10 ** 6
     run_case(ctx, outer, {'t': mt}, 'text' if rng.random() < 0.15 else 'ast', f'ordered-subquery/{n}', mon)
     ctx.count('obs.ordered_subquery_cases')
+
+
+def look_alike_keys_case(ctx, n, mon):
+    """An ORDER BY key that differs from a selected expression only in a constant, in the aggregate function or in one operand is
+    a key of its own: it must not be taken for the selected expression."""
+    rng = ctx.rng('look-alike-keys', n)
+    mt = gen.gen_table(rng, 't', max_rows=ctx.pick(14, 30), ties=True)
+    i, j, s_, t_ = ir.col('i', T_INT), ir.col('j', T_INT), ir.col('s', T_STR), ir.col('t', T_STR)
+    def L(v):
+        return ir.lit(v, T_INT)
+    scalar_pairs = [
+        (ir.bin_('mod', i, L(2), T_INT), ir.bin_('mod', i, L(3), T_INT)), (ir.bin_('mod', i, L(3), T_INT), ir.bin_('mod', j, L(3), T_INT)),
+        (ir.func('substr', [s_, L(0), L(1)], T_STR), ir.func('substr', [s_, L(1), L(2)], T_STR)), (ir.func('substr', [s_, L(0), L(1)], T_STR), ir.func('substr', [t_, L(0), L(1)], T_STR)),
+        (ir.bin_('add', i, L(1), T_INT), ir.bin_('sub', L(1), i, T_INT)), (ir.bin_('mul', i, L(1), T_INT), ir.bin_('mul', i, L(-1), T_INT)),
+        (ir.bin_('gt', i, L(0), T_BOOL), ir.bin_('gt', i, L(1), T_BOOL)), (ir.func('length', [s_], T_INT), ir.func('length', [t_], T_INT)),
+    ]
+    agg_pairs = [(ir.agg('min', [j], T_INT), ir.agg('max', [j], T_INT)), (ir.agg('max', [j], T_INT), ir.agg('min', [j], T_INT)),
+                 (ir.agg('first', [s_], T_STR), ir.agg('last', [s_], T_STR)), (ir.agg('sum', [j], T_INT), ir.agg('count', [j], T_INT)),
+                 (ir.agg('min', [j], T_INT), ir.agg('min', [ir.col('k', T_INT)], T_INT)), (ir.agg('sum', [ir.bin_('mod', j, L(2), T_INT)], T_INT), ir.agg('sum', [ir.bin_('mod', j, L(3), T_INT)], T_INT))]
+    desc = rng.choice([None, False, True])
+    if rng.random() < 0.5:
+        shown, key = rng.choice(scalar_pairs)
+        targets = [ir.Target(ir.col('k', T_INT)), ir.Target(shown, None if rng.random() < 0.6 else 'x')]
+        if rng.random() < 0.3:
+            targets.append(ir.Target(key, None))        # visible after the look-alike, referenced by expression
+        q = ir.Query(targets=targets, table='t', order_by=[ir.Key('expr', key, desc), ir.Key('expr', ir.col('k', T_INT), None)])
+    else:
+        shown, key = rng.choice(agg_pairs)
+        targets = [ir.Target(i, None), ir.Target(shown, None if rng.random() < 0.6 else 'x')]
+        if rng.random() < 0.3:
+            targets.append(ir.Target(key, None))
+        q = ir.Query(targets=targets, table='t', group_by=[ir.Key('index', 1)], order_by=[ir.Key('expr', key, desc), ir.Key('index', 1, None)])
+    if rng.random() < 0.2:
+        q.limit = rng.choice([1, 2, 3])
+    run_case(ctx, q, {'t': mt}, 'text' if rng.random() < 0.3 else 'ast', f'look-alike-keys/{n}', mon)
+    ctx.count('obs.look_alike_key_cases')
 
 
 def random_case(ctx, n, mon):
@@ -393,6 +431,8 @@ def replay(ctx, case):
     label = (case or {}).get('label', '')
     if label.startswith('random/'):
         random_case(ctx, int(label.split('/')[1]), mon)
+    elif label.startswith('look-alike-keys/'):
+        look_alike_keys_case(ctx, int(label.split('/')[1]), mon)
     elif label.startswith('ordered-subquery/'):
         ordered_subquery_case(ctx, int(label.split('/')[1]), mon)
     else:
